@@ -38,6 +38,32 @@ def tables(grid, tid):
 ROUTE = [0]
 
 
+def big_summary(grid, tid):
+    s = tuple(int(x) for x in grid.shape)
+    dim = len(s)
+    conn = np.asarray(grid.connectivity).astype(np.int64)
+    rev = [np.asarray(grid.reverse_connectivity)[d].astype(np.int64) for d in range(dim)]
+    strides = [int(np.prod(s[:d])) for d in range(dim)]          # F-order cell numbering
+    nfpa = [int(np.prod([s[a] - (1 if a == d else 0) for a in range(dim)])) for d in range(dim)]
+    e = {"tid": tid, "op": "big", "shape": list(s), "nf": int(grid.num_faces), "nc": int(grid.num_cells)}
+    e["counts_ok"] = int(int(grid.num_faces) == sum(nfpa) and [int(x) for x in grid.num_faces_per_axis] == nfpa and int(grid.num_cells) == int(np.prod(s)) and conn.shape == (sum(nfpa), 2))
+    ok_n, ok_r, ok_p, ok_kind = True, True, True, True
+    try:
+        coords = np.array(np.unravel_index(np.arange(int(np.prod(s))), s, order="F")).T
+        for d in range(dim):
+            f = np.asarray(grid.faces[d]).astype(np.int64)
+            a, b = conn[f, 0], conn[f, 1]
+            ok_n &= bool(len(f) == nfpa[d] and np.all(b - a == strides[d]) and np.all(coords[a, d] + 1 == coords[b, d]) and len(np.unique(f)) == len(f))
+            ok_r &= bool(np.all(rev[d][a, 1] == f) and np.all(rev[d][b, 0] == f) and int(np.sum(rev[d] != -1)) == 2 * nfpa[d] and np.all(rev[d] >= -1))
+            inter, exter = np.asarray(grid.interior_faces[d]).astype(np.int64), np.asarray(grid.exterior_faces[d]).astype(np.int64)
+            ok_p &= bool(len(np.intersect1d(inter, exter)) == 0 and np.array_equal(np.sort(np.concatenate([inter, exter])), np.sort(f)))
+        ok_kind = all(np.asarray(x).dtype.kind in "iu" for x in (grid.connectivity, grid.reverse_connectivity, grid.cell_index))
+    except Exception:  # noqa
+        ok_n = ok_r = ok_p = False
+    e.update(neighbours_ok=int(ok_n), rev_inverse_ok=int(ok_r), partition_ok=int(ok_p), kinds_ok=int(ok_kind))
+    return e
+
+
 def run(ck, replay=None):
     ck.sany("MC_Grid", "Trace_Grid")
     cfg = f"MC_Grid_{ck.tier}.cfg"
@@ -89,6 +115,10 @@ def run(ck, replay=None):
             if not np.array_equal(sarr, np.array(s)):
                 t_["shape"] = [-1] * len(s)          # the caller's shape array was written to
             events.append(t_)
+    # large grids (tens of thousands of faces - more than 2**15, index arithmetic in narrow integer types would wrap): the clauses are
+    # evaluated on the tables by vectorised harness code, TLC relates the verdict flags (E4)
+    for s in ([(150, 150), (30, 30, 30)] if ck.tier == "quick" else [(150, 150), (181, 181), (30, 30, 30), (40, 100, 8), (300, 220)]):
+        events.append(big_summary(darsia.Grid(s, [0.5] * len(s)), "big:" + "x".join(map(str, s))))
     # image-derived grids beyond the TLC bound (trace spec is unbounded)
     nimg = 6 if ck.tier == "quick" else 40
     for i in range(nimg):
@@ -123,10 +153,10 @@ def run(ck, replay=None):
                      {"shape": s, "tid": b["tid"], "clause": b["clause"]})
     ck.cov["twin_object_histories"] = ntwin
     ck.cov["evaluations"] = len(events)
-    ck.cov["distinct_nontrivial"] = len({tuple(e["shape"]) for e in events if len(e["conn"]) > 0})
+    ck.cov["distinct_nontrivial"] = len({tuple(e["shape"]) for e in events if e.get("op") == "big" or len(e["conn"]) > 0})
     ck.cov["rule"] = ("every shape enumerated by TLC (MC_Grid) is built with darsia.Grid (isotropic and anisotropic voxel sizes), "
                       "plus seeded image-derived grids; non-trivial = distinct shape with at least one inner face")
     ck.cov["exhaustive"] = True
-    ck.cov["samples"] = [{"tid": e["tid"], "shape": e["shape"], "conn": e["conn"][:6], "nfpa": e["nfpa"]} for e in events[5:8]]
+    ck.cov["samples"] = [{"tid": e["tid"], "shape": e["shape"], "conn": e["conn"][:6], "nfpa": e["nfpa"]} for e in [x for x in events if x.get("op") != "big"][5:8]]
     ck.assumptions += ["cell numbering is taken from the implementation's own cell_index table",
                        "shape range: " + cfg]
